@@ -117,6 +117,17 @@ theorem toUint_div_len (n : Nat) (c : Nat) (hlen : (n : Int) < 92233720368547758
   generalize n / c = q at *
   rw [wrapI_of_range _ (by omega) (by omega), wrapU_of_range _ (by omega) (by omega)]
 
+/-- the same quantity computed the other way round: `uint(len(x)) / 4` -/
+theorem divUc_toUint_len (n : Nat) (c : Nat) (hlen : (n : Int) < 9223372036854775808) :
+    divUc (toUint (n : Int)) (c : Int) = ((n / c : Nat) : Int) := by
+  unfold toUint divUc
+  rw [wrapU_of_range _ (by omega) (by omega), Int.ofNat_tdiv]
+
+/-- `len(x)/4` as a checksum width, in either spelling, with the divisor as the literal the source has -/
+theorem csWidth_forms (n : Nat) (hlen : (n : Int) < 9223372036854775808) :
+    toUint (divIc (n : Int) (4 : Int)) = ((n / 4 : Nat) : Int) ∧ divUc (toUint (n : Int)) (4 : Int) = ((n / 4 : Nat) : Int) :=
+  ⟨toUint_div_len n 4 hlen, divUc_toUint_len n 4 hlen⟩
+
 theorem two_pow_cast (k : Nat) : (2 : Int) ^ k = ((2 ^ k : Nat) : Int) := by simp [Int.natCast_pow]
 
 theorem shlI_one_small (k : Nat) (hk : k ≤ 62) : shlI 1 (k : Int) = ((1 <<< k : Nat) : Int) := by
